@@ -74,16 +74,22 @@ func (t *siteTracker) site() string {
 	}
 }
 
-// writerCalledFrom reports whether the innermost soyhtml function on the
-// stack of the current Write call has the given name.
+// writerCalledFrom reports whether the current Write call was issued by the
+// soyhtml function fn itself or by a helper it called: fn is met on the stack
+// before the interpreter's walk.
 func writerCalledFrom(fn string) bool {
-	var pcs [24]uintptr
+	var pcs [32]uintptr
 	n := runtime.Callers(3, pcs[:])
 	frames := runtime.CallersFrames(pcs[:n])
 	for {
 		f, more := frames.Next()
 		if strings.Contains(f.Function, "/soyhtml.") {
-			return strings.HasSuffix(f.Function, "."+fn)
+			if strings.HasSuffix(f.Function, "."+fn) {
+				return true
+			}
+			if strings.HasSuffix(f.Function, ".walk") {
+				return false
+			}
 		}
 		if !more {
 			return false
